@@ -1,6 +1,7 @@
 import CodeLimit.Model.Basic
 import CodeLimit.Model.Regex
 import CodeLimit.Model.Pattern
+import CodeLimit.Model.Scopes
 /-!
 Line-protocol driver for the executable models (`lean_exe cldriver`).
 One request per line, one reply per line, words separated by single blanks.
@@ -37,6 +38,59 @@ def parseNats : P (List Nat) := do
     out := out.push (← nextNat)
   return out.toList
 
+def parseStr : P Str := parseNats
+
+partial def parsePred : P Pred := do
+  match (← nextWord) with
+  | some "N" => return .name
+  | some "K" => return .keyword (← parseStr)
+  | some "S" => return .symbol (← parseStr)
+  | some "O" => return .operator (← parseStr)
+  | some "V" => return .value (← parseStr)
+  | some "I" => return .ident (← parseStr)
+  | some "!" => return .not (← parsePred)
+  | some "&" => let l ← parsePred; let r ← parsePred; return .and l r
+  | some "|" => let l ← parsePred; let r ← parsePred; return .or l r
+  | some "B" => let l ← parsePred; let r ← parsePred; return .balanced l r
+  | _ => return .ident []
+
+partial def parseRxP : P (Rx Pred) := do
+  match (← nextWord) with
+  | some "a" => return .atom (← parsePred)
+  | some "c" => let l ← parseRxP; let r ← parseRxP; return .cat l r
+  | some "u" => let l ← parseRxP; let r ← parseRxP; return .alt l r
+  | some "o" => return .opt (← parseRxP)
+  | some "s" => return .star (← parseRxP)
+  | some "p" => return .plus (← parseRxP)
+  | _ => return .atom (.ident [])
+
+def parseLanguage : P Language := do
+  let py ← nextNat; let nested ← nextNat; let hasPrev ← nextNat
+  let prev ← if hasPrev == 1 then (some <$> parsePred) else pure none
+  let n ← nextNat
+  let mut pats := #[]
+  for _ in [0:n] do
+    let e ← parseRxP
+    let hf ← nextNat
+    let f ← if hf == 1 then (some <$> parseRxP) else pure none
+    pats := pats.push ⟨e, f⟩
+  return ⟨pats.toList, py == 1, nested == 1, prev⟩
+
+def parseRaw : P (List RawTok) := do
+  let n ← nextNat
+  let mut out := #[]
+  for _ in [0:n] do
+    let off ← nextNat; let kind ← nextNat; let ty ← nextNat; let v ← parseStr
+    out := out.push ⟨off, kind, ty, v⟩
+  return out.toList
+
+def showStr (s : Str) : String := toString s.length ++ String.join (s.map fun c => s!" {c}")
+
+def showMeasurements : Except Err (List Measurement × Nat) → String
+  | .error e => s!"err {e.code}"
+  | .ok (ms, total) => s!"ok {ms.length}" ++ String.join (ms.map fun m =>
+      " " ++ showStr m.name ++ s!" {m.sl} {m.sc} {m.el} {m.ec} {m.len}") ++ s!" {total}"
+
 def showOptNat : Except Err (Option Nat) → String
   | .error e => s!"err {e.code}"
   | .ok none => "ok none"
@@ -47,7 +101,7 @@ def showMatches : Except Err (List (Match Nat)) → String
   | .ok ms => "ok " ++ toString ms.length ++ String.join (ms.map fun m =>
       s!" {m.s} {m.e} {m.toks.length}" ++ String.join (m.toks.map fun t => s!" {t}"))
 
-def handle (line : String) : String :=
+def handle (langs : Array Language) (line : String) : String :=
   let ws := (line.trimAscii.toString.splitOn " ").filter (· ≠ "")
   match ws with
   | [] => "bad-op"
@@ -66,16 +120,36 @@ def handle (line : String) : String :=
     | "findall" => run do
         let base ← nextNat; let r ← parseRx; let w ← parseNats
         return showMatches (findAllId r base id w)
+    | "scan" => run do
+        let li ← nextNat; let code ← parseStr; let raw ← parseRaw
+        return showMeasurements (analyze (langs.getD li default) code raw)
+    | "lexpos" => run do
+        let fc ← nextNat; let code ← parseStr; let raw ← parseRaw
+        let ts := lex code raw (fc == 1)
+        return s!"ok {ts.length}" ++ String.join (ts.map fun t => s!" {t.line} {t.col} {t.kind}")
+    | "loc2idx" => run do
+        let code ← parseStr; let l ← nextNat; let c ← nextNat
+        return showOptNat ((locationToIndex code l c).map some)
+    | "nocl" => run do
+        let v ← parseStr
+        return (if isNoclText v then "ok T" else "ok F")
     | _ => "bad-op"
 
-partial def loop (h : IO.FS.Stream) (out : IO.FS.Stream) : IO Unit := do
+partial def loop (h : IO.FS.Stream) (out : IO.FS.Stream) (langs : Array Language) : IO Unit := do
   let line ← h.getLine
   if line.isEmpty then return ()
-  out.putStrLn (handle line)
-  if line.startsWith "!" then out.flush
-  loop h out
+  if line.startsWith "lang " then
+    let ws := (line.trimAscii.toString.splitOn " ").filter (· ≠ "")
+    let (l, _) := (parseLanguage.run (ws.drop 2))
+    let id := ((ws.getD 1 "0").toNat?.getD 0)
+    let langs := if id < langs.size then langs.set! id l else (langs ++ Array.replicate (id - langs.size) default).push l
+    out.putStrLn "ok"
+    loop h out langs
+  else
+    out.putStrLn (handle langs line)
+    loop h out langs
 
 def main : IO Unit := do
   let out ← IO.getStdout
-  loop (← IO.getStdin) out
+  loop (← IO.getStdin) out #[]
   out.flush
